@@ -1,10 +1,185 @@
-(* C19 — placeholder while the pipeline is brought up *)
+(* C19 — Outbound messaging is bounded and isolated: a stuck peer blocks nobody.
+   Only property theorems (closed by [exact]), non-vacuity examples and [Print Assumptions].
+   Model: Model/StreamPool.v (labelled transition system; "all schedules" = all label lists);
+   proofs: Proofs/StreamPoolProofs.v, Proofs/StreamPoolIndex.v. *)
 From Coq Require Import List NArith Bool.
 Import ListNotations.
-From AnySync Require Import Model.StreamPool.
+From AnySync Require Import Model.StreamPool Proofs.StreamPoolProofs Proofs.StreamPoolIndex Proofs.StreamPoolSpec.
 Open Scope N_scope.
 
-Example c19_smoke_nonvacuous :
-  let ops := [HAddStream 1 1 [7; 7] false; HBroadcast [7]; HBroadcast [7]] in
+(* ---- bounded queues -------------------------------------------------------------------------------- *)
+(* in every state reachable by ANY label sequence (any mix of healthy / slow / blocked-forever / failing
+   streams, any interleaving of sends, tag changes, closes) every stream buffers at most its size *)
+Theorem c19_bounded : forall c tr sid st,
+  hget sid (objs (run (init c) tr)) = Some st ->
+  N.of_nat (length (st_queue st)) <= st_cap st.
+Proof. exact bounded_all_schedules. Qed.
+Print Assumptions c19_bounded.
+
+(* TryAdd semantics: an add beyond the size is dropped with an error and changes nothing *)
+Theorem c19_overflow_dropped : forall st m,
+  st_qclosed st = false -> st_cap st <= N.of_nat (length (st_queue st)) ->
+  write_stream st m = (st, WOverflow).
+Proof. exact write_stream_overflow. Qed.
+Print Assumptions c19_overflow_dropped.
+
+Theorem c19_closed_rejected : forall st m, st_qclosed st = true -> write_stream st m = (st, WClosed).
+Proof. exact write_stream_closed. Qed.
+
+Theorem c19_dial_queue_bounded : forall c tr,
+  0 < dial_cap c -> N.of_nat (length (dialq (run (init c) tr))) <= dial_cap c.
+Proof. exact dial_bounded_all_schedules. Qed.
+Print Assumptions c19_dial_queue_bounded.
+
+(* ---- FIFO ------------------------------------------------------------------------------------------ *)
+(* per stream: accepted = handed-to-MsgSend ++ buffered; delivered is a prefix of handed-to-MsgSend,
+   which is a prefix of accepted (acceptance order); at most one message is in flight *)
+Theorem c19_fifo : forall c tr sid st,
+  hget sid (objs (run (init c) tr)) = Some st ->
+  st_accepted st = st_taken st ++ st_queue st /\ prefix (st_taken st) (st_accepted st)
+  /\ prefix (st_written st) (st_taken st)
+  /\ (length (st_taken st) <= S (length (st_written st)))%nat.
+Proof. exact fifo_all_schedules. Qed.
+Print Assumptions c19_fifo.
+
+(* ---- a caller never waits ---------------------------------------------------------------------------- *)
+(* no step of a caller operation is the return of a call into a drpc stream or a dialer *)
+Theorem c19_caller_steps_never_wait : forall l, caller_label l = true -> env_label l = false.
+Proof. exact caller_not_env. Qed.
+Print Assumptions c19_caller_steps_never_wait.
+
+(* one own step always makes progress, in every state *)
+Theorem c19_write_progress : forall s cid,
+  dead s = false ->
+  (pending_size (step s (LWrite cid)) cid < pending_size s cid)%nat
+  \/ pending_size s cid = 0%nat \/ dead (step s (LWrite cid)) = true.
+Proof. exact write_progress. Qed.
+Print Assumptions c19_write_progress.
+
+(* for every schedule of everybody else — including one in which a blocked stream's MsgSend never returns —
+   a caller operation is over after at most [pending_size] of its own steps *)
+Theorem c19_caller_nonblocking : forall tr s cid,
+  Forall (fun l => l = LWrite cid \/ foreign cid l = true) tr ->
+  (pending_size (run s tr) cid <= pending_size s cid - count_writes cid tr)%nat
+  \/ dead (run s tr) = true.
+Proof. exact caller_progress_all_schedules. Qed.
+Print Assumptions c19_caller_nonblocking.
+
+(* writer / reader / closer steps of one stream touch nothing but that stream's record *)
+Theorem c19_isolation : forall s l sid,
+  writer_label l = Some sid ->
+  callers (step s l) = callers s /\ by_peer (step s l) = by_peer s /\ by_tag (step s l) = by_tag s
+  /\ pool_ids (step s l) = pool_ids s /\ dialq (step s l) = dialq s /\ running (step s l) = running s
+  /\ fatal (step s l) = fatal s /\ panicked (step s l) = panicked s
+  /\ forall sid', sid' <> sid -> hget sid' (objs (step s l)) = hget sid' (objs s).
+Proof. exact writer_frame. Qed.
+Print Assumptions c19_isolation.
+
+(* ---- index consistency, no fatal, cleanup ---------------------------------------------------------------- *)
+(* streamIdsByPeer / streamIdsByTag and streams[.].tags describe each other, multiset-exactly (duplicate tags at
+   creation, AddTagsCtx / RemoveTagsCtx / RemoveTagsById, closes — in any interleaving) *)
+Theorem c19_index_consistent : forall c tr,
+  let s := run (init c) tr in
+  (forall sid, memN sid (pool_ids s) = true <->
+               exists st, hget sid (objs s) = Some st /\ st_removed st = false)
+  /\ (forall sid p, countN sid (mget p (by_peer s)) =
+        match hget sid (objs s) with
+        | Some st => if negb (st_removed st) && (st_peer st =? p) then 1%nat else 0%nat
+        | None => 0%nat end)
+  /\ (forall sid t, countN sid (mget t (by_tag s)) =
+        match hget sid (objs s) with
+        | Some st => if negb (st_removed st) then countN t (st_tags st) else 0%nat
+        | None => 0%nat end).
+Proof. exact index_consistent_all_schedules. Qed.
+Print Assumptions c19_index_consistent.
+
+(* hence neither log.Fatal branch of removeStream nor a nil *stream dereference is reachable *)
+Theorem c19_no_fatal : forall c tr,
+  fatal (run (init c) tr) = false /\ panicked (run (init c) tr) = false.
+Proof. exact no_fatal_all_schedules. Qed.
+Print Assumptions c19_no_fatal.
+
+(* after a stream ended no index mentions it, no later Broadcast / SendById / Send / Streams collects it,
+   and a caller still holding the stream gets ErrClosed (nothing is buffered for it any more) *)
+Theorem c19_cleanup : forall c tr sid st,
+  let s := run (init c) tr in
+  hget sid (objs s) = Some st -> st_removed st = true ->
+  memN sid (pool_ids s) = false
+  /\ (forall p, ~ In sid (mget p (by_peer s)))
+  /\ (forall t, ~ In sid (mget t (by_tag s)))
+  /\ (forall tags, ~ In sid (bcast_targets s tags))
+  /\ (forall peers, ~ In sid (concat (peer_groups (by_peer s) peers)))
+  /\ (forall tags, ~ In sid (streams_of s tags))
+  /\ (forall m, write_stream st m = (st, WClosed)).
+Proof. exact cleanup_all_schedules. Qed.
+Print Assumptions c19_cleanup.
+
+(* ---- the model and the property predicate over observed histories ------------------------------------------ *)
+(* FULL statement (not proved in Coq; checked by vm_compute on every generated case, where the model's history
+   is required to be EQUAL to the observed one and the observed one to satisfy spec_C19):
+     forall c ops, spec_C19 ops (model_hist c ops) = true.
+   Proved part: the per-observation clauses "the call returned (no fatal / panic / hang in the model)" and
+   "no snapshot shows more than the configured size buffered".  Missing: the clauses that relate several
+   observations (FIFO over the MsgSend log, Close()/removal once, nothing mentions a removed stream) and the
+   canonicalised-snapshot form of index consistency; their state-level counterparts are c19_fifo,
+   c19_index_consistent and c19_cleanup above. *)
+Theorem c19_model_satisfies_spec_partial : forall c ops, forallb obs_static_ok (model_hist c ops) = true.
+Proof. exact model_hist_static_ok. Qed.
+Print Assumptions c19_model_satisfies_spec_partial.
+
+Theorem c19_spec_implies_static : forall ops observed,
+  spec_C19 ops observed = true -> forallb obs_static_ok observed = true.
+Proof. exact spec_implies_static. Qed.
+
+(* every harness-level operation expands to a label list: the histories compared with the implementation only
+   visit states covered by the theorems above *)
+Theorem c19_history_states_reachable : forall s i op, fst (run_op s i op) = run s (expand s i op).
+Proof. exact run_op_state. Qed.
+
+(* ---- util/multiqueue (receive queues of commonspace/sync): same bounded TryAdd queue per thread ------------- *)
+Theorem c19_multiqueue_bounded_fifo : forall cap ops k st,
+  0 < cap ->
+  hget k (mq_objs (mq_run (mq_init cap) 0 ops)) = Some st ->
+  N.of_nat (length (st_queue st)) <= st_cap st
+  /\ st_accepted st = st_taken st ++ st_queue st
+  /\ prefix (st_written st) (st_taken st).
+Proof. exact mq_bounded_fifo_all_histories. Qed.
+Print Assumptions c19_multiqueue_bounded_fifo.
+
+(* ---- non-vacuity ------------------------------------------------------------------------------------- *)
+(* a blocked stream (1) with a full queue next to a healthy one (2): the overflow is real, stream 2 is served *)
+Example c19_bounded_nonvacuous :
+  let s := run (init (mkConfig 1 1))
+             [LAddStream 1 1 [7] false; LAddStream 2 1 [7] false;
+              LBroadcast 0 10 [7]; LWrite 0; LTake 1; LWrite 0; LTake 2; LSendOk 2;
+              LBroadcast 0 11 [7]; LWrite 0; LWrite 0; LTake 2; LSendOk 2;
+              LBroadcast 0 12 [7]; LWrite 0; LWrite 0; LTake 2] in
+  option_map (fun st => (st_queue st, st_inflight st, st_accepted st)) (hget 1 (objs s)) = Some ([11], Some 10, [10; 11])
+  /\ option_map (fun st => (st_queue st, st_inflight st, st_written st)) (hget 2 (objs s)) = Some ([], Some 12, [10; 11])
+  /\ pending_size s 0 = 0%nat /\ dead s = false.
+Proof. vm_compute. repeat split. Qed.
+
+(* duplicate tags at creation, tag changes and a close: the indexes stay exact and end empty *)
+Example c19_index_nonvacuous :
+  let s := run (init (mkConfig 1 1))
+             [LAddStream 1 1 [7; 7; 8] false; LAddStream 1 1 [7] false; LAddTags 1 [8; 9; 9]; LRemoveTags 1 [7] false;
+              LReadErr 1; LCloseQueue 1; LBroadcast 0 5 [7; 8; 9]; LRemove 1; LWrite 0; LWrite 0] in
+  (by_peer s, by_tag s, pool_ids s, dead s) = ([(1, [2])], [(7, [2])], [2], false)
+  /\ option_map st_removed (hget 1 (objs s)) = Some true
+  /\ option_map st_accepted (hget 1 (objs s)) = Some []      (* collected before the removal, rejected: queue closed *)
+  /\ option_map st_accepted (hget 2 (objs s)) = Some [5].
+Proof. vm_compute. repeat split. Qed.
+
+Example c19_multiqueue_nonvacuous :
+  let ops := [MqAdd 1; MqAdd 1; MqAdd 1; MqAdd 2; MqRelease 1 0; MqCloseThread 1; MqAdd 2; MqClose; MqAdd 2] in
+  map mo_err (mq_hist (mq_init 1) 0 ops) = [0; 0; 3; 0; 0; 0; 0; 0; 5]
+  /\ spec_C19_mq (mq_hist (mq_init 1) 0 ops) = true.
+Proof. vm_compute. split; reflexivity. Qed.
+
+Example c19_spec_nonvacuous :
+  let ops := [HAddStream 1 1 [7; 7] false; HAddStream 2 2 [7] true; HBroadcast [7]; HBroadcast [7];
+              HBroadcast [7; 8]; HSendById [2; 1]; HRelease 1 true; HAddTags 2 [8; 8]; HRelease 2 false;
+              HStreams [7; 8]; HCloseRelease 2; HStreams [7; 8]; HReadErr 1; HBroadcast [7];
+              HSend [(5, Some (1, [9], false)); (6, None)]] in
   spec_C19 ops (model_hist (mkConfig 1 2) ops) = true.
 Proof. vm_compute. reflexivity. Qed.
